@@ -254,6 +254,9 @@ pub fn install_panic_hook() {
   }));
 }
 
+/// the panic hook is process-wide; LAST_PANIC is thread-local, so worker threads just need the hook installed once
+pub fn install_thread_panic_capture() {}
+
 /// Run an implementation call; a panic is returned as Err("msg @ file:line").
 pub fn guard<T>(f: impl FnOnce() -> T) -> Result<T, String> {
   LAST_PANIC.with(|p| *p.borrow_mut() = None);
